@@ -66,6 +66,9 @@ func genC18(r *Rng, tier string) *Plan {
 	p := &Plan{Prop: "C18", Seed: r.U64(), Meta: map[string]string{}}
 	worldParams(r, p)
 	n := r.Range(1, 6)
+	if r.Chance(1, 40) {
+		n = 0 // nothing but non-config files (and maybe a profile): nothing to do, and nothing to refuse
+	}
 	ents := make([]*EntitySpec, n)
 	for i := range ents {
 		e := &EntitySpec{ID: fmt.Sprintf("e%d", i), Name: fmt.Sprintf("e%d", i), Dir: Pick(r, c18Dirs), Ext: Pick(r, c18Exts), Subject: []RDN{{"CN", fmt.Sprintf("Entity %d", i)}}}
@@ -77,13 +80,20 @@ func genC18(r *Rng, tier string) *Plan {
 		}
 		if r.Chance(1, 6) {
 			e.Name = fmt.Sprintf("e%d.prod", i)
+		} else if r.Chance(1, 8) {
+			e.Name = Pick(r, []string{"my root %d", "zürich-ca-%d", "日本%d", "ca+%d", "x=%d", "(%d)"})
+			e.Name = fmt.Sprintf(e.Name, i)
 		}
 		if i > 0 && r.Chance(3, 4) {
 			e.Issuer = ents[r.Intn(i)].EffAlias()
 		}
 		ents[i] = e
 	}
-	kind := Pick(r, []string{"forest", "forest", "forest", "case-variant-aliases", "dangling-by-case", "dangling-by-blank", "dangling", "self-loop", "cycle", "tail-into-cycle", "collision-file-file", "collision-suffix", "collision-explicit-file", "collision-explicit-explicit"})
+	kinds := []string{"forest"}
+	if n > 0 {
+		kinds = []string{"forest", "forest", "forest", "case-variant-aliases", "dangling-by-case", "dangling-by-blank", "dangling", "self-loop", "cycle", "tail-into-cycle", "collision-file-file", "collision-suffix", "collision-explicit-file", "collision-explicit-explicit"}
+	}
+	kind := Pick(r, kinds)
 	late := r.Chance(1, 2) // introduce the breakage after a good run
 	breakIt := func(es []*EntitySpec) []*EntitySpec {
 		// returns the specs that change (new or modified); es is the current sound set
